@@ -465,6 +465,7 @@ func modeC07(e *Env) {
 		for j := 0; j < nat; j++ {
 			a := defaultAttempt()
 			a.Fault = &Fault{Kind: "eof", At: 0}
+			a.Deadline = (i+j)%3 == 1 // the caller's context may carry a deadline
 			atts = append(atts, a)
 		}
 		if i%5 == 2 {
@@ -584,6 +585,24 @@ func stopPlans(l *Log, start Pos, r *rand.Rand, stride int) []AttemptPlan {
 			out = append(out, c)
 		}
 	}
+	// two stop causes in one session: the connection is lost on its own while the handler of transaction k is still busy, and
+	// then the handler fails / the caller cancels
+	for k := 0; k < ntx; k++ {
+		for _, fk := range []string{"close", "reset"} {
+			a := defaultAttempt()
+			a.Fault = &Fault{Kind: fk, At: npk}
+			a.HandlerBlock = k
+			a.HandlerBlockMs = 40
+			a.HandlerErrAt = k
+			out = append(out, a)
+			b := defaultAttempt()
+			b.End = "idle"
+			b.Fault = &Fault{Kind: fk, At: npk}
+			b.CancelAtTx = k
+			b.ReleaseDelayMs = 40
+			out = append(out, b)
+		}
+	}
 	// a failure that coincides with cancellation: the handler (or the table mapper) cancels the context - to stop the rest
 	// of the application - and then returns its error; the failure must still be reported
 	for k := 0; k < ntx; k++ {
@@ -674,6 +693,11 @@ func modeC05(e *Env) {
 					h.SkipError = true
 					atts = []AttemptPlan{h, p, defaultAttempt()}
 				}
+				if id%7 == 3 {
+					for k := range atts {
+						atts[k].Deadline = true // the caller's context may carry a (far) deadline
+					}
+				}
 				if id%2 == 1 {
 					// half of the scenarios look for goroutines left behind before Error() is called for the first time
 					for k := range atts {
@@ -712,10 +736,20 @@ func modeC08(e *Env) {
 			a.HandlerBlockMs = 30
 		}
 		id++
-		RunStreamScenario(e.Rec, &StreamScenario{ID: id, Fam: "c08", Log: l, Start: l.Boundaries()[0], ServerID: 21,
-			Attempts: []AttemptPlan{a}, Note: "stability"})
+		sc := &StreamScenario{ID: id, Fam: "c08", Log: l, Start: l.Boundaries()[0], ServerID: 21,
+			Attempts: []AttemptPlan{a}, Note: "stability"}
+		if i%2 == 1 {
+			// "after the stream has ended": the same Streamer streams the whole history again over a new connection (and
+			// the handler scribbles again) before everything delivered so far is re-read
+			b := defaultAttempt()
+			b.Scribble = a.Scribble
+			sc.Attempts = append(sc.Attempts, b)
+			sc.SetPosBefore = map[int]Pos{1: sc.Start}
+		}
+		RunStreamScenario(e.Rec, sc)
 	}
-	// repeated "zero" values of every kind: values an implementation may be tempted to hand out from a shared constant
+	// repeated values of every kind (zero values and others): values an implementation may be tempted to hand out from a
+	// shared constant or from a memo of what it decoded last
 	for i := 0; i < e.N(12, 120); i++ {
 		cfg := cfgs[e.R.Intn(len(cfgs))]
 		l := &Log{Cfg: cfg}
@@ -729,17 +763,26 @@ func modeC08(e *Env) {
 		f := &LogFile{Name: "mysql-bin.000001"}
 		l.Files = []*LogFile{f}
 		ts := uint32(1600000000)
+		// per column a small pool of values (the zero value and two others) that come back in later rows and transactions:
+		// a value an implementation remembers from an earlier row must not be handed out again
+		pool := make([][][]byte, len(t.Cols))
+		for ci := range t.Cols {
+			pool[ci] = [][]byte{zeroValue(&t.Cols[ci]), genCell(e.R, &t.Cols[ci], 12), genCell(e.R, &t.Cols[ci], 12)}
+		}
 		for u := 0; u < 3; u++ {
 			ev := &Ev{K: pickS(e.R, "write", "update"), TS: ts, Tbl: t}
 			for rw := 0; rw < 2; rw++ {
 				mk := func() []Cell {
 					var img []Cell
 					for ci := range t.Cols {
-						raw := zeroValue(&t.Cols[ci])
-						if e.R.Intn(4) == 0 {
+						raw := pool[ci][0]
+						switch e.R.Intn(8) {
+						case 0:
 							raw = genCell(e.R, &t.Cols[ci], 12)
+						case 1, 2, 3:
+							raw = pool[ci][1+e.R.Intn(2)]
 						}
-						img = append(img, Cell{St: "val", Bytes: raw})
+						img = append(img, Cell{St: "val", Bytes: append([]byte(nil), raw...)})
 					}
 					return img
 				}
@@ -760,7 +803,7 @@ func modeC08(e *Env) {
 		a.Scribble = true
 		id++
 		RunStreamScenario(e.Rec, &StreamScenario{ID: id, Fam: "c08", Log: l, Start: l.Boundaries()[0], ServerID: 21,
-			Attempts: []AttemptPlan{a}, Note: "repeated-zero-values"})
+			Attempts: []AttemptPlan{a}, Note: "repeated-values"})
 	}
 	// zero timestamps with and without fractions: values that an implementation may be tempted to share
 	for i := 0; i < e.N(6, 40); i++ {
@@ -775,6 +818,7 @@ func modeC08(e *Env) {
 		f := &LogFile{Name: "mysql-bin.000001"}
 		l.Files = []*LogFile{f}
 		ts := uint32(1600000000)
+		sameSecond := uint32(1500000000 + e.R.Intn(100000000))
 		for u := 0; u < 3; u++ {
 			ev := &Ev{K: "write", TS: ts, Tbl: t}
 			for rw := 0; rw < 2; rw++ {
@@ -783,7 +827,13 @@ func modeC08(e *Env) {
 					c := &t.Cols[ci]
 					raw := genCell(e.R, c, 10)
 					if c.Typ == 7 || c.Typ == 17 {
-						raw[0], raw[1], raw[2], raw[3] = 0, 0, 0, 0 // the zero timestamp
+						if e.R.Intn(2) == 0 {
+							raw[0], raw[1], raw[2], raw[3] = 0, 0, 0, 0 // the zero timestamp
+						} else if c.Typ == 7 {
+							raw[0], raw[1], raw[2], raw[3] = byte(sameSecond), byte(sameSecond>>8), byte(sameSecond>>16), byte(sameSecond>>24) // the same second again
+						} else {
+							raw[0], raw[1], raw[2], raw[3] = byte(sameSecond>>24), byte(sameSecond>>16), byte(sameSecond>>8), byte(sameSecond)
+						}
 					}
 					img = append(img, Cell{St: "val", Bytes: raw})
 				}
